@@ -179,6 +179,11 @@ def items(tier, rng):
             k = rng.choice([2, 3, 4])
             d = rng.choice([0.0004, 0.0007, 0.0011, 0.00049])
             adv.append(([round(1.0 / k + d, 5)] * k, 1.0))
+    # no items at all, and a zero decimal capacity
+    for mn in (False, True):
+        out.append({"name": "knap_0", "harness": "h_knap", "params": {"weights": [], "capacity": 3, "minimize": mn}})
+    out.append({"name": "knap_cap0dec", "harness": "h_knap", "params": {"weights": [0.5, 0.25], "capacity": 0.0, "minimize": False}})
+    out.append({"name": "knap_adv_min", "harness": "h_knap", "params": {"weights": [0.3335] * 3, "capacity": 1.0, "minimize": True}, "path_wall_s": 90})
     for ws, cap in adv:
         for mn in (False,) if q else (False, True):
             out.append({"name": "knap_adv", "harness": "h_knap", "params": {"weights": ws, "capacity": cap, "minimize": mn}, "path_wall_s": 90})
